@@ -2,6 +2,11 @@ import TongoModel.CellRead
 /-! "Never panics" as a predicate on outcomes, with the closure rules used to push it through monadic code. -/
 namespace Tongo
 
+instance : LawfulMonad Outcome := LawfulMonad.mk' (m := Outcome)
+  (id_map := fun x => by cases x <;> rfl)
+  (pure_bind := fun _ _ => rfl)
+  (bind_assoc := fun x _ _ => by cases x <;> rfl)
+
 /-- the outcome is a value or an error, never a panic -/
 def NoPanic {α} (x : Outcome α) : Prop := ∀ p, x ≠ .panic p
 
